@@ -111,6 +111,12 @@ func (s *Sim) hostileSpecs(r *rand.Rand) []*TxSpec {
 		p.Note = "hostile:proposal-option"
 		out = append(out, p)
 	}
+	for _, n := range []int{0, 1, 32, 63, 64, 66, 96, 130} {
+		t := s.baseTx(1, u(), u().Addr)
+		t.Amount = "1"
+		t.Tamper = fmt.Sprintf("siglen:%d", n)
+		add("signature-length", t)
+	}
 	d := s.baseTx(7, u(), zero)
 	d.DocName, d.DocURL = strings.Repeat("n", 100000), strings.Repeat("u", 5000)
 	add("setdoc-huge", d)
